@@ -171,6 +171,30 @@ def run(ctx, rep):
     rep.ob("C17.trace", "the error carries the call stack as rendered at the point of failure (with_context(|| stack.to_string()))",
            "ok" if okctx else "violated", "", ex.span, fn=ex.path, key="C17.trace|execute|stack-context")
 
+    # ---- (b) one call stack: every nested call runs on the stack execute() will render --------------------------------------------
+    news = F.callers_of("bytecode::stack::Stack::new")
+    extra = [(mir.short(f.path), c.span) for f, c in news if f.path != "bytecode::interpreter::Program::execute"]
+    rep.ob("C17.trace", "the program has one call stack: Stack::new is called in Program::execute only", "violated" if extra or not news else "ok",
+           "other creators: %s" % extra if extra else "", ex.span if False else None, key="C17.trace|one-stack|creators")
+    n_jr = 0
+    for f in F.crates["bytecode"].fns:
+        if f.path.startswith("bytecode::instruction::implementations::") is False:
+            continue
+        for bi, si, dst, rv, s_ in f.assigns():
+            if "agg" in rv and str(rv["agg"].get("adt", "")).endswith("instruction::JumpRequest"):
+                a_ = F.adt(rv["agg"]["adt"])
+                names = [x["name"] for x in a_["variants"][0]["fields"]]
+                if "stack" not in names:
+                    raise AnchorMissing("JumpRequest.stack")
+                l = op_local(rv["ops"][names.index("stack")])
+                oc = rules.origin_calls(f, l) if l is not None else []
+                okst = bool(oc) and all(c.matches("bytecode::context::Ctx::rced_call_stack") for c in oc)
+                n_jr += 1
+                rep.ob("C17.trace", "%s: the callee runs on the caller's call stack (JumpRequest.stack is Ctx::rced_call_stack())" % mir.short(f.path),
+                       "ok" if okst else "violated", "stack comes from %s" % [mir.short(c.callee()) for c in oc], s_.get("us") or s_.get("sp"), fn=f.path,
+                       key="C17.trace|one-stack|%s#%d" % (mir.short(f.path), n_jr))
+    rep.floor("C17.JumpRequest constructions in instruction handlers", n_jr, 5)
+
     # ---- (b) the rendering order: innermost first, every frame ----------------------------------------------------------------
     disp = [f for f in F.crates["bytecode"].fns if f.path == "<bytecode::stack::Stack as core::fmt::Display>::fmt"]
     if len(disp) != 1:
